@@ -52,6 +52,10 @@ RestartConfigs == { Cfg(SidRestart(la), SidRestart(lb), kp[1], kp[2]) :
                        la \in { l \in ListsA : Len(l) = 2 }, lb \in { l \in ListsB : Len(l) = 3 },
                        kp \in { <<2, <<1, 1>>>>, <<3, <<3, 2>>>> } }
 
+RestartConfigsQuick == { c \in RestartConfigs : c.k = 3 }
+\* the three small static scopes in one run (the driver tells them apart by their structure)
+StaticConfigs == OrientConfigs \cup SelfConfigs \cup SamePosConfigs
+
 \* motion scope: two queries, three candidates in two tomograms, every cube rotation, two translations, each tomogram
 MotionBase == { Cfg(<<P(1, 1, <<8, 16, 24>>, ra), P(2, 2, <<44, -12, 20>>, Ry1)>>,
                     <<P(11, t1, <<24, 16, 40>>, Rx1), P(12, 1, <<-16, 40, 24>>, Mul(Rz1, Rx1)), P(13, 2, <<52, 4, 12>>, rb),
